@@ -29,3 +29,17 @@ CHECKS["C14"].update(
     level_text="Same histories as C13, judged against a reference model of grant timing and order written from the property statement; exhaustive in the stated scope, sampled beyond.",
     level_note="Trusts the 60-line reference model; 'earlier-requested waiting allocation' is read as head of its peer's queue (the reading favourable to the code).",
     technique="bounded-exhaustive enumeration + rapid model-based testing against a reference allocator", design_ref="DESIGN.md §5 C14")
+
+_SIM_ASSUME = [
+    "go-ipld-prime's selector walk (traversal.WalkAdv) is the trusted reference; the oracle shares it with the implementation and nothing of go-graphsync",
+    "stores are in-memory maps; sha2-256 collision resistance",
+    "runs inside a testing/synctest bubble: quiescence is exact, time is virtual; final quiescence = nothing deliverable + 5 s of virtual time (every timer in go-graphsync that matters is 100 ms)",
+]
+CHECKS["C02"] = dict(
+    pkg="props/c02", level="exploration", gomaxprocs=1,
+    rule="case = generated DAG (1-12 blocks quick / 1-30 thorough; raw and dag-cbor blocks, nested inline maps/lists holding links, shared sub-DAGs) x generated selector (recursive explore-all / fields / union / index / range bodies, depth limits) x placement of every block in {requestor, responder, both, neither}; two real impl.New instances exchange over the simulated network, honest in-order delivery. Oracle: reference two-store traversal on plain go-ipld-prime: exact delivered (path,node,last-block) sequence, exact multiset of RemoteMissingBlockErr{link,path}, no other error, final requestor store = initial U blocks resolved from the responder, both channels closed. Non-trivial: partial split (each side holds a reached block the other lacks) AND (a missing link OR a link inside an inline node OR a block reached twice). Distinct by hash of the case.",
+    assumptions=_SIM_ASSUME + ["responder is given the root whenever anything is needed from it (root missing => content-not-found is C03/C04 behaviour)", "cases in the class of known finding C02-K2 are excluded by construction and counted"],
+    quick=dict(shards=2, timeout=400), thorough=dict(shards=16, timeout=3000),
+    level_text="Random search over DAG x selector x store split against an independent reference traversal with exact-equality oracles on delivered nodes, errors and stored blocks. Finds violations with small witnesses (two defects found and fixed, one recorded); establishes nothing beyond the cases run.",
+    level_note="Trusts go-ipld-prime's walk and the 40-line two-store resolver in dagen/ref.go. Honest FIFO schedule only (schedules are C06/C20).",
+    technique="rapid property-based testing, differential against a reference two-store traversal", design_ref="DESIGN.md §4 C02")
